@@ -927,7 +927,7 @@ def _c12_cli_relabel(self, rng):
     import os
     import shutil
     from .props_c import render_adjacency, run_cli, read_tokens
-    work = os.path.join(self.bdir, "scratch", "cli12")
+    work = os.path.join(self.bdir, "scratch", "p%d_" % os.getpid() + "cli12")
     for k in range(6 if self.tier == "quick" else 40):
         directed, assort = rng.random() < 0.5, rng.random() < 0.5
         K = rng.choice([2, 3])
@@ -1058,7 +1058,7 @@ def _c15_cli_rejections(self, rng):
     import os
     import shutil
     from .props_c import render_adjacency, render_affinity, run_cli, sanitizer_report
-    work = os.path.join(self.bdir, "scratch", "cli15")
+    work = os.path.join(self.bdir, "scratch", "p%d_" % os.getpid() + "cli15")
     good_recs = [(0, 1, [1, 0]), (1, 2, [1, 1]), (2, 0, [0, 2]), (0, 2, [1, 0])]
     adj = render_adjacency(rng, good_recs, {"blank": False})
     cases = [
